@@ -25,7 +25,7 @@ TECHNIQUE = ("Lean 4 proof over a model regenerated from the source on every run
              "over API histories (simulation with a specification that uses a fresh transformer per call), induction over block "
              "programs / scope-guard programs with exceptions -- plus a correspondence run: random API histories with aborting "
              "transformations on one real XalanTransformer against a newly created one, hook values, memory probe, ASan pass")
-LEVEL_TEXT = ("Machine-checked (25 theorems, axioms propext/Classical.choice/Quot.sound): for every member state in which a "
+LEVEL_TEXT = ("Machine-checked (27 theorems, axioms propext/Classical.choice/Quot.sound): for every member state in which a "
               "transformation can stop, ~EnsureReset restores every member classified transient (reset_restores_partial; hypothesis "
               "MidOk discharged by reset_after_any_abort from the C01 walker statement WalkerPairing), the next transformation starts "
               "from a fresh transformer's state (start_state_independent_partial), sticky/config/const members are never written "
@@ -59,6 +59,8 @@ THEOREMS = [
     "XalanModel.Props.C06.guard_sites_all_guarded",
     "XalanModel.Props.C06.pooled_objects_reinitialised",
     "XalanModel.Props.C06.cache_keys_complete",
+    "XalanModel.Props.C06.scratch_qname_history_free",
+    "XalanModel.Props.C06.scratch_qname_stale_counterexample",
     "XalanModel.Props.C06.scope_guard_restores",
     "XalanModel.Props.C06.guarded_members_stay_fresh",
     "XalanModel.Props.C06.reset_restores_objstack_counterexample",
@@ -349,6 +351,13 @@ def classify_failure(runner, small, last):
         r, _, _, _ = runner.run([small], "classify", fresh_from="P")
         if r[0]["status"] == "ok":
             tag = "param-set-both-ways"
+    # XalanQNameByValue::resolvePrefix keeps the namespace of the previous lookup of the shared scratch QName when a prefix is
+    # not declared: recognised by what happens, not by the input -- a NEW transformer reports "prefix ... is not declared",
+    # the reused one does not report that error
+    fe = canon_err((last.get("fresh") or {}).get("err"))
+    re_ = canon_err((last.get("reused") or {}).get("err"))
+    if tag == "plain" and "InvalidQNameException" in fe and "is not declared" in fe and "InvalidQNameException" not in re_:
+        tag = "undeclared-prefix-qname"
     return "reuse-differs[%s]: %s" % (tag, " ; ".join(small))
 
 
@@ -381,6 +390,16 @@ def run(ctx):
                                    "objStackResetZeroesDepth": side.get("objStackResetZeroesDepth"),
                                    "paramSetClearsOther": side.get("paramSetClearsOther")}
     runner = Runner(harness, model, work)
+    # scratch objects: every member assigned on every non-throwing path of the entry function.  While the defect in
+    # XalanQNameByValue::resolvePrefix is unrepaired this is false on the tree as found; it is then reported under the key of
+    # the listed finding (so it is a KNOWN-FINDING while listed, a violation otherwise) instead of as a broken theorem
+    for what, okp in side.get("scratch_path_sites", []):
+        if okp:
+            ctx.oblige("scratch object: " + what, "translator", True)
+        else:
+            ctx.fail("reuse-differs[undeclared-prefix-qname]: translator: NOT(" + what + ")",
+                     "the re-used scratch QName of the execution context keeps a member from the previous lookup on some path "
+                     "(translate/c06_reset.py, all-paths analysis of the entry function)", ["transformsrc qn_ea_decl d1 1", "transformsrc qn_ea_undecl d1 2"])
 
     r = Rng(ctx.seed)
     nhist, maxops = (200, 14) if not ctx.thorough else (10000, 24)
@@ -451,8 +470,8 @@ def run(ctx):
                     state.setdefault("unreproduced", []).append({"history": ops, "detail": rr.get("detail")})
             elif st == "differs":
                 m = rr.get("model") or {}
-                if m.get("P") != m.get("S"):
-                    # fast path for the listed defect: no need to shrink each of its many occurrences
+                if ctx.findings:
+                    # fast path for listed defects: no need to shrink each of their many occurrences
                     prefix = ops[:rr["at"] + 1]
                     key = classify_failure(rn, prefix, rr)
                     if any(f.get("match") and re.search(f["match"], key) for f in ctx.findings):
